@@ -3,7 +3,7 @@
 HOOK_COMMITS = ['afbbdb338']
 
 ENGINES = [
-    dict(name='E4-TSE', path='engine/vsrt/vsrt.cpp, engine/tse.hpp', serves_properties=['C03', 'C18', 'C19'],
+    dict(name='E4-TSE', path='engine/vsrt/vsrt.cpp, engine/tse.hpp', serves_properties=['C03', 'C04', 'C18', 'C19'],
          kind_free_text='stateless preemption-bounded exploration of thread schedules of the real implementation: libvsrt serialises real std::threads (futex hand-off), interposes pthread/once/guards/'
                         'sleep/clock, implements the __tsan_* ABI with a vector-clock happens-before monitor; tse.hpp runs every schedule in a forked child and iterates the site sets to a fixpoint'),
     dict(name='E1-DBE', path='engine/choice.hpp', serves_properties=['C01', 'C02', 'C03', 'C04', 'C08', 'C15', 'C16', 'C17', 'C20'],
@@ -27,7 +27,8 @@ HARNESSES = {
     'C17': [dict(name='c17_simplify', src=['C17_simplify.cpp'], flavour='asan')],
     'C02': [dict(name='c02_control', src=['C02_control.cpp'], flavour='asan')],
     'C20': [dict(name='c20_repro', src=['C20_repro.cpp'], flavour='asan')],
-    'C04': [dict(name='c04_costs', src=['C04_costs.cpp'], flavour='asan')],
+    'C04': [dict(name='c04_costs', src=['C04_costs.cpp'], flavour='asan'),
+            dict(name='c04_threads', src=['C19_threads.cpp'], flavour='tsi', cflags=['-DSCEN_C04'], ldflags=['-rdynamic'])],
     'C03': [dict(name='c03_interrupt', src=['C03_interrupt.cpp'], flavour='asan', ldflags=['-rdynamic']),
             dict(name='c03_threads', src=['C19_threads.cpp'], flavour='tsi', cflags=['-DSCEN_C03'], ldflags=['-rdynamic']),
             dict(name='c03_control', src=['C03_control.cpp'], flavour='asan', ldflags=['-rdynamic'])],
@@ -118,12 +119,14 @@ PROPERTY_META = {
         level_note='Trusted: fork/exec isolation, the observation hash (status, flags, solution path bits). The seed, problem and budget quantifiers are finite sets; layouts are 5 environments, not all.'),
     'C04': dict(
         deadline_quick=420, deadline_thorough=1700, engine='E1-DBE', design_ref='5/C04',
-        technique='exhaustive enumeration of all short insertion histories into the real ProblemDefinition; deviation-bounded exploration of optimizing planners x objectives x thresholds with continued solves',
+        technique='exhaustive enumeration of all short insertion histories into the real ProblemDefinition; deviation-bounded exploration of optimizing planners x objectives x thresholds with continued solves and query-switch histories; PRM / PRM* (always two threads) under ALL thread schedules with <= P preemptions (E4 schedule explorer)',
         level_text='(a) every insertion history of <= 4 (thorough 5) solutions over 12-16 solution kinds into a real ProblemDefinition, checked after each insertion against a reference order and all '
                    'accessor functions. (b) 17 optimizing planners (+2 non-optimizing representatives) x 5 objectives (length, state-cost integral, mechanical work, max-min clearance, weighted multi) x '
                    'thresholds x maps, three continued solves, every execution with <= D deviations among the first N choice points: stored vs. recomputed cost, admissible bound, optimized flag, '
-                   'monotone best cost, best-first.',
-        level_note=DBE_NOTE),
+                   'monotone best cost, best-first. Query-switch histories (short query, clearQuery|clear + the main costlier query, continued; main query, switch, switch back) with <= 1 '
+                   'deviation among the first 4 (thorough 12) choice points. PRM and PRM* run the short-query / switch / main-query history under the E4 scheduler: every schedule with <= 1 '
+                   '(thorough 2) preemptions on 2 maps x {clearQuery, clear}.',
+        level_note=DBE_NOTE + ' Threaded planners: trusted libvsrt, sequential consistency.'),
     'C03': dict(
         deadline_quick=500, deadline_thorough=1700, engine='E1-DBE', design_ref='5/C03',
         technique='exhaustive enumeration of the termination index (every k up to past the first solution) x call histories on the real planners under the choice oracle; allocation-counting state space; for the always-multi-threaded planners (PRM, PRM*, SPARS, SPARStwo, CForest) the termination index is crossed with ALL thread schedules with <= P preemptions (E4 schedule explorer)',
